@@ -71,7 +71,13 @@ def run(ctx):
                 "numeric reference %d: html5lib maps to %r, the standard to %r" % (k, rep.get(k), inv.get(k)))
 
     numeric(ctx, rep)
-    named(ctx)
+    ev_named = named_evaluated(ctx)
+    try:
+        named(ctx, ev_named)
+    except AnalysisError:
+        if not ev_named:
+            raise
+        ctx.r.note("C14: the shape of consumeEntity is not the recognised one; its behaviour was decided by running it (R14.4 evaluated::)")
     reverse_map(ctx, ents)
     contexts(ctx)
     trie_rules(ctx)
@@ -221,7 +227,79 @@ def numeric(ctx, rep):
             "hexadecimal references are not introduced by exactly x / X")
 
 
-def named(ctx):
+def named_evaluated(ctx) -> bool:
+    """R14.4 / R14.7 by running consumeEntity from its source (sa/classeval.py) on a character stream, with a model of the
+    entity trie built from constants.entities: for names with and without `;`, names that are prefixes of other names, each
+    followed by a letter, a digit, `=`, `;`, white space, `<`, `&`, a quote, a non-ASCII letter or digit and the end of input, in
+    text and in an attribute value -- the text that results (what is emitted or appended to the attribute value, plus what is
+    left unread) is what the standard's "consume a character reference" produces."""
+    from ..classeval import ClassEval, Record
+    r, ce = ctx.r, ctx.ce
+    g = ctx.repo.func(REL, "HTMLTokenizer.consumeEntity")
+    mod = g.module
+    cls_ = ctx.repo.cls(REL, "HTMLTokenizer")
+    ents = ce.const("constants.py", "entities")
+    tt = ce.const("constants.py", "tokenTypes")
+    keys = sorted(ents)
+    prefixes = set()
+    for k in keys:
+        for i in range(1, len(k) + 1):
+            prefixes.add(k[:i])
+
+    def longest(p):
+        for i in range(len(p), 0, -1):
+            if p[:i] in ents:
+                return p[:i]
+        raise KeyError(p)
+    trie = Record(has_keys_with_prefix=lambda p: p in prefixes, longest_prefix=longest, __contains__=lambda k: k in ents)
+    params = g.params()[1:]
+    if sorted(params) != ["allowedChar", "fromAttribute"]:
+        return False
+    names = ["amp;", "amp", "not", "notin;", "copy", "para", "lt", "zzz", "no", "Eacute", "eacute;", "notit;"]
+    followers = ["i", "1", "=", ";", " ", "<", "&", '"', "\u00e9", "\u0661", "", "t;"]
+    space = ce.const("constants.py", "spaceCharacters")
+    n_run = 0
+    try:
+        for name in names:
+            for fol in followers:
+                for from_attr, allowed in ((False, None), (True, '"'), (True, ">")):
+                    text = name + fol
+                    evl = ClassEval(ce, mod, cls_, {"currentToken": {"type": tt["StartTag"], "name": "a", "data": [["title", "v:"]]}}, repo=ctx.repo,
+                                    globals_override={"entitiesTrie": trie})
+                    evl.stream = list(text)
+                    evl.call("consumeEntity", [], {"allowedChar": allowed, "fromAttribute": from_attr})
+                    if from_attr:
+                        out = evl.attrs["currentToken"]["data"][-1][1][2:]
+                    else:
+                        out = "".join(t["data"] for t in evl.emitted if isinstance(t, dict) and t.get("type") in (tt["Characters"], tt["SpaceCharacters"]))
+                    got = out + "".join(evl.stream)
+                    # the standard
+                    if text == "" or text[0] in space or text[0] in "<&" or (allowed is not None and text[0] == allowed):
+                        exp = "&" + text
+                    else:
+                        m = next((text[:i] for i in range(len(text), 0, -1) if text[:i] in ents), None)
+                        if m is None:
+                            exp = "&" + text
+                        else:
+                            nxt = text[len(m):len(m) + 1]
+                            if not m.endswith(";") and from_attr and nxt != "" and (nxt in "=" or (nxt.isascii() and nxt.isalnum())):
+                                exp = "&" + text
+                            else:
+                                exp = ents[m] + text[len(m):]
+                    n_run += 1
+                    if got != exp:
+                        r.bad("R14.4", "evaluated[&%s,%s]" % (text, "attribute value ending in %s" % allowed if from_attr else "text"), g.where,
+                              "consumeEntity on `&%s` in %s: the resulting text is %r; the standard's is %r (a name without `;` stays text in an "
+                              "attribute value only when the character right after the *matched name* is an ASCII letter, digit or `=`)" % (
+                                  text, "an attribute value" if from_attr else "text", got, exp), {"input": text, "attribute": from_attr})
+    except AnalysisError as e:
+        r.note("C14: consumeEntity not evaluable as a whole (%s); its tests are decided separately" % str(e)[:120])
+        return False
+    r.ok("R14.4", "evaluated::named-references", g.where, detail={"streams_run": n_run})
+    return True
+
+
+def named(ctx, evaluated=False):
     r, ce = ctx.r, ctx.ce
     g = ctx.repo.func(REL, "HTMLTokenizer.consumeEntity")
     gi = MiniInterp(ce, g.module)
@@ -263,7 +341,7 @@ def named(ctx):
     # in the exception arm the text is left undecoded; in the other arm the table value is used
     body_src = " ".join(norm(ast.Module(body=t.body, type_ignores=[])).split())
     else_src = " ".join(norm(ast.Module(body=t.orelse, type_ignores=[])).split())
-    r.idiom("R14.4", "output = '&' + ''.join(charStack)" in body_src and "output = entities[entityName]" in else_src,
+    r.idiom("R14.4", evaluated or "output = '&' + ''.join(charStack)" in body_src and "output = entities[entityName]" in else_src,
             "attr-exception-arms", "%s:%d" % (REL, t.lineno), "the arms of the attribute exception no longer keep / decode the reference")
     # R14.7
     pre = [n for n in g.node.body if isinstance(n, ast.If) and "allowedChar" in norm(n.test)]
@@ -271,7 +349,7 @@ def named(ctx):
         # the pre-check without an additional allowed character: found by its shape (first statement after the first read that
         # ungets the character); it cannot honour the quote / `>` that ends the attribute value
         cand = [n for n in g.node.body if isinstance(n, ast.If) and any("unget" in norm(s) for s in n.body) and "charStack[0]" in norm(n.test)]
-        r.idiom("R14.7", False, "pre-check", g.where, "consumeEntity: the not-a-reference pre-check was not found",
+        r.idiom("R14.7", evaluated, "pre-check", g.where, "consumeEntity: the not-a-reference pre-check was not found",
                 wrong=[(len(cand) == 1 and "allowedChar" not in g.params(),
                         "consumeEntity has no additional allowed character any more: in an attribute value `&` directly before the closing "
                         "quote (title=\"AT&\") or before `>` (title=a&>) is no longer \"not a character reference\": a parse error is "
@@ -291,7 +369,7 @@ def named(ctx):
                     % (allowed, atom_name(a), "treated" if got else "not treated"))
     ungets = ["self.stream.unget(charStack[0])"] + ["self.stream.unget(%s)" % al for al in first_aliases]
     pb = [norm(s) for s in pre[0].body]
-    r.idiom("R14.7", len(pb) == 1 and pb[0] in ungets, "pre-check-unget",
+    r.idiom("R14.7", evaluated or len(pb) == 1 and pb[0] in ungets, "pre-check-unget",
             "%s:%d" % (REL, pre[0].lineno), "the character that is not part of a reference is not given back",
             wrong=[(not any("unget" in x for x in pb), None)])
 
